@@ -5,7 +5,7 @@ from sysbase import SysBase, geometry
 class C02(SysBase):
     id = "C02"
     proof_target = "Props/C02.vo"
-    theorems = ["C02_missing_nonincreasing", "C02_pick_exists", "C02_assignment_requests", "C02_tracker_no_deadlock", "C02_extraction_identical", "C02_seeder_download_completes", "C02_seeder_any_chooser", "C02_seeder_from_connection", "C02_assigned_piece_completes", "C02_idle_announcer_asked", "C02_stats_exact", "C02_stats_model_repaired", "C02_stats_pinned_refuted"]
+    theorems = ["C02_missing_nonincreasing", "C02_pick_exists", "C02_assignment_requests", "C02_tracker_no_deadlock", "C02_extraction_identical", "C02_seeder_download_completes", "C02_seeder_any_chooser", "C02_seeder_from_connection", "C02_assigned_piece_completes", "C02_idle_announcer_asked", "C02_refuted_sole_holder_left_idle", "C02_stats_exact", "C02_stats_model_repaired", "C02_stats_pinned_refuted"]
     coq_header = "From Rdest Require Import Base Corr.Sys.\nOpen Scope N_scope.\nDefinition codes := codes02.\n"
     rule = ("end-to-end runs in one process under the paused clock: the real Session, real PeerHandler tasks over in-memory "
             "pipes, 1-4 scripted remote peers following the protocol (each holding a subset of the pieces, every piece held by "
